@@ -8,6 +8,8 @@ EXTENDS Integers, Sequences, FiniteSets, TLC
 
 CONSTANTS Lattice,              \* coordinate values (even integers)
           Dim, MaxPts, MaxK, MaxIter,
+          StopRule,             \* "code": stop when n*shift <= sum|X| (what _tolerance('L1') computes, ignoring tol)
+                                \* "any":  stop after any iteration (the property must not depend on the rule)
           DEV_EmptyClusterNaN   \* TRUE: the median of an empty cluster overwrites the relocated centre (NaN)
 
 NaN == <<-999>>                 \* a centre that is not a number
@@ -78,7 +80,9 @@ Track(old) == /\ pc = "T"
                          THEN [labels |-> labels, centers |-> centers, inertia |-> inertia] ELSE best
               /\ shift' = Shift(old, centers)
               /\ iter' = iter + 1
-              /\ pc' = IF N * Shift(old, centers) <= SumAbsX \/ iter + 1 >= MaxIter THEN "F" ELSE "E"
+              /\ IF iter + 1 >= MaxIter THEN pc' = "F"
+                 ELSE IF StopRule = "code" THEN pc' = IF N * Shift(old, centers) <= SumAbsX THEN "F" ELSE "E"
+                 ELSE pc' \in {"F", "E"}
               /\ UNCHANGED <<X, K, centers, labels, dist, inertia>>
 \* the centres the E step of this iteration used are recoverable: they produced `labels`; keep them explicitly
 VARIABLE old
